@@ -82,8 +82,14 @@ def _deductive_task(arg) -> dict:
         obs = []
         retries_left = 3
         mine = [ob for ob in rep.obligations if pid in ob.props]
+        open_count = 0
         for k, ob in enumerate(mine):
             if k % nshards != shard:
+                continue
+            if open_count >= 8:
+                # enough obligations of this shard are open to report; the remaining ones are not attempted on this run (they are listed as skipped)
+                obs.append({'name': ob.name, 'kind': ob.kind, 'scenario': ob.scenario, 'path': list(ob.path), 'status': 'skipped', 'backend': 'not attempted',
+                            'seconds': 0.0, 'model': None, 'line': ob.line, 'model_values': None, 'known': None, 'smt2_sha': None})
                 continue
             inputs = getattr(ob, 'inputs', None)
             regions = []
@@ -122,6 +128,8 @@ def _deductive_task(arg) -> dict:
                 d['smt2_sha'] = hashlib.sha256(ob.smt2.encode()).hexdigest()[:16]
                 if ob.kind in ('ensures', 'raises', 'frame', 'lemma') and idx >= 0:
                     d['cross'] = cross_check(ob, timeout_s=20)
+            if d['status'] not in ('discharged', 'known-finding'):
+                open_count += 1
             obs.append(d)
         return {'contract': contract.qualname, 'scenario': scen, 'shard': shard, 'sha256': rep.sha256, 'paths': rep.paths, 'obligations': obs,
                 'out_of_subset': rep.out_of_subset, 'assumptions': sorted(rep.assumptions), 'covers': sorted(rep.covers),
@@ -261,7 +269,8 @@ def main(argv=None) -> int:
     n_ob = len(all_obs)
     n_dis = sum(1 for o in all_obs if o['status'] == 'discharged')
     n_known = sum(1 for o in all_obs if o['status'] == 'known-finding')
-    open_obs = [o for o in all_obs if o['status'] not in ('discharged', 'known-finding')]
+    open_obs = [o for o in all_obs if o['status'] not in ('discharged', 'known-finding', 'skipped')]
+    n_skipped = sum(1 for o in all_obs if o['status'] == 'skipped')
     oos = [(r['contract'], m) for r in ded for m in r['out_of_subset']]
 
     # known findings: witness must still reproduce natively (bounded replay) before the line is printed
@@ -416,7 +425,7 @@ def main(argv=None) -> int:
     nontriv = sum(r.get('distinct_nontrivial', 0) for r in bnd)
     coverage: Dict[str, Any] = {
         'obligations': n_ob, 'discharged': n_dis, 'known_finding_obligations': n_known,
-        'failed': sum(1 for o in open_obs if o['status'] == 'failed'), 'undecided': len(undecided),
+        'failed': sum(1 for o in open_obs if o['status'] == 'failed'), 'undecided': len(undecided), 'skipped_after_failures': n_skipped,
         'checker_cmd': f'./check {pid} --tier {args.tier}',
         'trusted_base': trusted,
         'functions_under_contract': [{'qualname': r['contract'], 'sha256': r['sha256'], 'paths': r['paths'],
